@@ -9,6 +9,10 @@ package main
 //	ret vol <limitGB> <counter> <segs> → del=<segments removed by the volume pass>
 //	ret int <cut> <nowMs> <hours> <segs> → the five stores after DeleteSegmentData was cut after <cut>
 //	                                       micro-steps and a full pass was run afterwards
+//	ret rec <nowMs> <hours> <segs> <recs> → h=… del=… pq=<every entry of the pqmeta files afterwards>: the time-based
+//	                                       pass, THEN empty results are recorded the way a rotation records them
+//	                                       (AddToEmptyPqmetaChan → BulkAddEmptyResults); recs ::= <pqid>/<key>,…
+//	                                       a key that is not in <segs> is a segment rotated after the pass
 //
 // The clock of DoRetentionBasedDeletion cannot be injected.  The op line therefore talks about a virtual
 // clock reading <nowMs>; Exec plans a real instant T* a few ms ahead, shifts every segment time so that
@@ -21,6 +25,7 @@ package main
 // search + segmeta.json + directory listing.
 
 import (
+	"encoding/json"
 	"fmt"
 	"math/big"
 	"math/rand"
@@ -48,7 +53,7 @@ import (
 
 func init() {
 	register(&Suite{Name: "ret", Gen: genRet, Exec: execRet,
-		Rule: "meta sets of 1..14 log/metrics segments with ages clustered at the horizon (0, ±1 ms, ±1 s, ±1 h), ties, other orgs, absurd retention hours; volume pass with sizes at the GB boundary; delete protocol cut at every micro-step then re-run; non-trivial = at least one victim and one survivor"})
+		Rule: "meta sets of 1..14 log/metrics segments with ages clustered at the horizon (0, ±1 ms, ±1 s, ±1 h), ties, other orgs, absurd retention hours; volume pass with sizes at the GB boundary; delete protocol cut at every micro-step (what is only queued for the pqmeta files is lost at the cut) then re-run; records of empty results AFTER a pass that (mostly) removed the last pqmeta entry, for survivors and for segments rotated since; non-trivial = at least one victim and one survivor (rec: one victim and one record)"})
 }
 
 type rseg struct {
@@ -159,7 +164,7 @@ var retBlobPanicAt = -1 // panic inside the n-th DeleteBlob call (crash injectio
 var retBlobCalls = 0
 var retHooksDone = false
 
-type retCrash struct{}
+type retCrash_ struct{}
 
 func retInit() string {
 	bootEngine()
@@ -178,7 +183,7 @@ func retInit() string {
 		hooks.GlobalHooks.DeleteBlobExtrasHook = func(fp string) (bool, error) {
 			if retBlobPanicAt >= 0 && retBlobCalls == retBlobPanicAt {
 				retBlobCalls++
-				panic(retCrash{})
+				panic(retCrash_{})
 			}
 			retBlobCalls++
 			delete(retBlob, fp)
@@ -206,6 +211,61 @@ func retReset(ing string) {
 		delete(retBlob, k)
 	}
 	retBlobPanicAt, retBlobCalls = -1, 0
+}
+
+// retCrash: the process dies here.  What is on disk stays; what was only QUEUED for the writer's listener goroutine
+// (pqsChan: back-fill of .sfm files, additions to and removals from the pqmeta files) is lost.  The listener's private
+// buffer cannot be reached from outside, so: remember the pqmeta files as they are at this instant, let the listener
+// process whatever it holds, put the files back.  (Requests that change .sfm files are not queued by a retention pass.)
+// Then what a restart does to the pqmeta directory: InitPqsMeta.
+//
+// The listener may be writing a pqmeta file at this very instant (code that does not wait for its queued removals: the
+// listener processes its buffer on its own every PQS_TICKER seconds or PQS_FLUSH_SIZE requests).  writeEmptyPqsMapToFile
+// truncates the file and then writes it with one Write call, and it never writes less than "{}" (the file of an empty map
+// is removed instead): a file of length 0 (or one that is not a JSON value) is a file caught between the two, the directory is
+// read again then.  Every
+// other state the directory can be seen in is the state before or after one of the listener's writes, i.e. what a crash
+// at that instant leaves on disk.
+var retSnapshotRetried = false
+
+func retCrash() {
+	dir := retPqMetaDir()
+	var snap map[string][]byte
+	existed := false
+	for attempt := 0; ; attempt++ {
+		snap = map[string][]byte{}
+		ents, err := os.ReadDir(dir)
+		existed = err == nil
+		torn := false
+		for _, e := range ents {
+			b, err := os.ReadFile(filepath.Join(dir, e.Name()))
+			if os.IsNotExist(err) { // removed between ReadDir and ReadFile: the state after that removal
+				continue
+			}
+			must(err)
+			if len(b) == 0 || !json.Valid(b) {
+				torn = true
+			}
+			snap[e.Name()] = b
+		}
+		if !torn {
+			break
+		}
+		retSnapshotRetried = true
+		if attempt > 20000 {
+			panic("harness: a pqmeta file stays empty")
+		}
+		time.Sleep(100 * time.Microsecond)
+	}
+	writer.VerifDrainPqsRequests()
+	must(os.RemoveAll(dir))
+	if existed {
+		must(os.MkdirAll(dir, 0o764))
+		for name, b := range snap {
+			must(os.WriteFile(filepath.Join(dir, name), b, 0o764))
+		}
+	}
+	pqsmeta.InitPqsMeta()
 }
 
 func retPqid(p int) string { return fmt.Sprintf("vpq%d", p) }
@@ -702,8 +762,11 @@ func execRetInt(f []string) Result {
 			}
 			return vs[:k]
 		}
-		if cut >= n {
-			// the head of DeleteSegmentData (call-order fact: ReadSfm first): pqids from the .sfm files
+		// DeleteSegmentData in the order the call-order fact DeleteSegmentData.order ties to the source:
+		// ReadSfm (pqids of the victims) → emptyPqMeta files → blob → local files → in-memory metadata → segmeta.json;
+		// one micro-step per (phase, victim), segmeta.json is one step
+		defer retCrash()
+		readSfm := func() {
 			for _, v := range vs {
 				if v.AllPQIDs == nil {
 					if sfm, err := writer.ReadSfm(v.SegmentKey); err == nil {
@@ -713,12 +776,20 @@ func execRetInt(f []string) Result {
 			}
 		}
 		if cut < n {
-			// a crash inside phase 1 of the REAL DeleteSegmentData: after `cut` segments' blob objects
-			retBlobCalls, retBlobPanicAt = 0, int(cut)*2
+			// a crash inside the emptyPqMeta phase: the real step for `cut` of the victims
+			readSfm()
+			if cut > 0 {
+				retention.VerifDeleteSegmentsFromEmptyPqMetaFiles(toMap(firstN(cut)))
+			}
+			return
+		}
+		if cut < 2*n {
+			// a crash inside the blob phase of the REAL DeleteSegmentData: after `cut-n` segments' blob objects
+			retBlobCalls, retBlobPanicAt = 0, int(cut-n)*2
 			func() {
 				defer func() {
 					if r := recover(); r != nil {
-						if _, ok := r.(retCrash); !ok {
+						if _, ok := r.(retCrash_); !ok {
 							panic(r)
 						}
 					}
@@ -729,25 +800,24 @@ func execRetInt(f []string) Result {
 			return
 		}
 		// later crash points: the callees of DeleteSegmentData in its order (tied by the call-order fact)
-		for _, v := range vs { // phase 1 complete
+		readSfm()
+		retention.VerifDeleteSegmentsFromEmptyPqMetaFiles(toMap(vs))
+		for _, v := range vs { // blob phase complete
 			fs, _ := hooks.GlobalHooks.GetAllFilesInDirectoryHook(path.Dir(v.SegmentKey) + "/")
 			for _, fl := range fs {
 				_, _ = hooks.GlobalHooks.DeleteBlobExtrasHook(fl)
 			}
 		}
 		dirs := map[string]struct{}{}
-		for _, v := range firstN(cut - n) {
+		for _, v := range firstN(cut - 2*n) {
 			d, _ := sutils.GetSegBaseDirFromFilename(v.SegmentKey)
 			dirs[d] = struct{}{}
 		}
 		writer.RemoveSegBasedirs(dirs)
-		if cut > 2*n {
-			for _, v := range firstN(cut - 2*n) {
+		if cut > 3*n {
+			for _, v := range firstN(cut - 3*n) {
 				segmetadata.DeleteSegmentKey(v.SegmentKey)
 			}
-		}
-		if cut > 3*n {
-			retention.VerifDeleteSegmentsFromEmptyPqMetaFiles(toMap(firstN(cut - 3*n)))
 		}
 		if cut > 4*n {
 			_ = writer.RemoveSegMetas(toMap(vs))
@@ -807,16 +877,194 @@ func execRetInt(f []string) Result {
 	retCheckStores(all, obs, &res, fmt.Sprintf("pass interrupted after %d micro-steps, then repeated", cut))
 	res.Out = fmt.Sprintf("blob=%s files=%s mem=%s pq=%s sm=%s", retShowKeys(blob), retShowKeys(files), retShowKeys(mem), pqs, retShowKeys(sm))
 	res.Nontrivial = nv > 0 && len(sm) > 0
-	res.Tags = []string{"int", fmt.Sprintf("int-cut-phase=%d", func() uint64 {
+	res.Tags = []string{"int", "int-cut-in-phase=" + func() string {
 		if nv == 0 {
-			return 0
+			return "no-victim"
 		}
 		p := cut / uint64(nv)
-		if p > 5 {
+		if cut > 4*uint64(nv) {
 			p = 5
 		}
-		return p
-	}())}
+		return []string{"pqmeta", "blob", "files", "memory", "before-segmeta", "after-the-end"}[p]
+	}()}
+	if retSnapshotRetried {
+		retSnapshotRetried = false
+		res.Tags = append(res.Tags, "int-crash-while-listener-was-writing")
+	}
+	return res
+}
+
+// ---------------------------------------------------------------- ret rec
+
+type retRec struct {
+	pqid int
+	key  uint64
+}
+
+func retParseRecs(s string) ([]retRec, bool) {
+	if s == "-" {
+		return nil, true
+	}
+	var out []retRec
+	for _, tok := range strings.Split(s, ",") {
+		f := strings.Split(tok, "/")
+		if len(f) != 2 {
+			return nil, false
+		}
+		p, ok1 := retParseDec(f[0], 16)
+		k, ok2 := retParseDec(f[1], 32)
+		if !ok1 || !ok2 || p >= 1000 {
+			return nil, false
+		}
+		out = append(out, retRec{int(p), k})
+	}
+	return out, true
+}
+
+func retPqMetaDir() string {
+	return filepath.Join(config.GetDataPath(), "querynodes", config.GetHostID(), "pqmeta")
+}
+
+func execRetRec(f []string) Result {
+	if len(f) != 4 {
+		return Result{Out: "bad-op"}
+	}
+	nowV, ok1 := retParseDec(f[0], 64)
+	hours, ok2 := retParseHours(f[1])
+	segs, ok3 := retParseSegs(f[2])
+	recs, ok4 := retParseRecs(f[3])
+	if !ok1 || !ok2 || !ok3 || !ok4 || nowV >= retNowBound {
+		return Result{Out: "bad-op"}
+	}
+	byKey := map[uint64]*rseg{}
+	for _, s := range segs {
+		if s.kind == 'm' {
+			return Result{Out: "bad-op"} // empty-PQ meta files only ever list log segments
+		}
+		byKey[s.key] = s
+	}
+	ing := retInit()
+	hv := retention.GetRetentionTimeMs(hours, time.UnixMilli(int64(nowV)))
+	obs, hStar, hEnd, all, status := retRunTimedPass(ing, segs, int64(nowV), hours, hv, nil)
+	defer retReset(ing)
+	res := Result{}
+	if status != "ok" {
+		res.Out = status
+		return res
+	}
+	var del []uint64
+	kept := 0
+	hadEntries := false
+	for _, s := range segs {
+		if !obs.meta[s.segkey] {
+			del = append(del, s.key)
+		} else {
+			kept++
+		}
+		if len(s.pqs) > 0 {
+			hadEntries = true
+		}
+	}
+	retCheckStores(all, obs, &res, "time pass")
+	_, dirErr := os.Stat(retPqMetaDir())
+	dirGone := dirErr != nil
+	// after the pass: segments rotated since (keys that are not in <segs>), then the records, on the path a rotation
+	// takes (segstore.go: `go AddToEmptyPqmetaChan(pqid, segstore.SegmentKey)` → pqsChan → BulkAddEmptyResults)
+	var fresh []*rseg
+	for _, rc := range recs {
+		if byKey[rc.key] == nil {
+			ns := &rseg{key: rc.key, kind: 'l', real: hEnd + 3600000, size: 1}
+			byKey[rc.key] = ns
+			fresh = append(fresh, ns)
+		}
+	}
+	if len(fresh) > 0 {
+		retBuild(ing, fresh)
+	}
+	for _, rc := range recs {
+		writer.AddToEmptyPqmetaChan(retPqid(rc.pqid), byKey[rc.key].segkey)
+	}
+	writer.VerifDrainPqsRequests()
+	listed := map[string]bool{}
+	for _, m := range writer.ReadLocalSegmeta(false) {
+		listed[m.SegmentKey] = true
+	}
+	pqids := map[int]bool{}
+	bySegkey := map[string]uint64{}
+	for _, s := range byKey {
+		bySegkey[s.segkey] = s.key
+		for _, p := range s.pqs {
+			pqids[p] = true
+		}
+	}
+	for _, rc := range recs {
+		pqids[rc.pqid] = true
+	}
+	type pe struct{ p, k uint64 }
+	var pes []pe
+	have := map[pe]bool{}
+	for p := range pqids {
+		m, _ := pqsmeta.GetAllEmptySegmentsForPqid(retPqid(p))
+		for sk := range m {
+			if k, ok := bySegkey[sk]; ok {
+				pes = append(pes, pe{uint64(p), k})
+				have[pe{uint64(p), k}] = true
+			}
+		}
+	}
+	sort.Slice(pes, func(i, j int) bool { return pes[i].p < pes[j].p || (pes[i].p == pes[j].p && pes[i].k < pes[j].k) })
+	var pq []string
+	for _, e := range pes {
+		pq = append(pq, fmt.Sprintf("%d/%d", e.p, e.k))
+	}
+	pqs := "-"
+	if len(pq) > 0 {
+		pqs = strings.Join(pq, ",")
+	}
+	// the property, independent of the model: a record made after the pass for a segment that is listed in segmeta.json
+	// can be read back; the records do not disturb the entries of the survivors
+	cls := "pass-left-other-entries"
+	if dirGone {
+		cls = "pass-removed-the-last-entry"
+	}
+	seenRec := map[retRec]bool{}
+	for _, rc := range recs {
+		if seenRec[rc] {
+			continue
+		}
+		seenRec[rc] = true
+		if listed[byKey[rc.key].segkey] && !have[pe{uint64(rc.pqid), rc.key}] {
+			res.Fails = append(res.Fails, PropFail{Sig: "retention/pqmeta-record-lost/" + cls,
+				Msg: fmt.Sprintf("after the pass an empty result of pqid %d was recorded for listed segment %d, but pqid %d's empty-results meta file does not list it (pqmeta directory existed after the pass: %v)", rc.pqid, rc.key, rc.pqid, !dirGone)})
+		}
+	}
+	for _, s := range segs {
+		if !listed[s.segkey] {
+			continue
+		}
+		for _, p := range s.pqs {
+			if !have[pe{uint64(p), s.key}] {
+				res.Fails = append(res.Fails, PropFail{Sig: "retention/survivor-damaged/pqmeta", Msg: fmt.Sprintf("records after the pass: empty-PQ entry %d of surviving segment %d is gone", p, s.key)})
+			}
+		}
+	}
+	_ = hStar
+	res.Out = fmt.Sprintf("h=%d del=%s pq=%s", hv, retShowKeys(del), pqs)
+	res.Nontrivial = len(del) > 0 && len(recs) > 0
+	res.Tags = []string{"rec"}
+	if dirGone {
+		res.Tags = append(res.Tags, "rec-after-pass-removed-the-last-pqmeta-entry")
+	} else if hadEntries {
+		res.Tags = append(res.Tags, "rec-after-pass-left-pqmeta-entries")
+	} else {
+		res.Tags = append(res.Tags, "rec-no-pqmeta-entries-before")
+	}
+	if len(fresh) > 0 {
+		res.Tags = append(res.Tags, "rec-for-segment-rotated-after-the-pass")
+	}
+	if kept > 0 {
+		res.Tags = append(res.Tags, "rec-with-survivors")
+	}
 	return res
 }
 
@@ -832,6 +1080,8 @@ func execRet(line string) Result {
 		return execRetVol(f[2:])
 	case "int":
 		return execRetInt(f[2:])
+	case "rec":
+		return execRetRec(f[2:])
 	}
 	return Result{Out: "bad-op"}
 }
@@ -1115,6 +1365,65 @@ func genRetInt(r *rand.Rand) string {
 	return fmt.Sprintf("ret int %d %d %d %s", cut, now, hours, strings.Join(segs, ";"))
 }
 
+// genRetRec: a time-based pass and then records.  Mostly (by construction) the pass removes the LAST entry of the last
+// pqmeta file: every segment that has empty-PQ entries is expired, segments without entries survive.
+func genRetRec(r *rand.Rand) string {
+	now := int64(1790000000000) + r.Int63n(1000000000)
+	hours := int64(24)
+	h := now - hours*3600000
+	emptying := r.Intn(10) < 7
+	nseg := 1 + r.Intn(5)
+	var segs []string
+	key := uint64(1 + r.Intn(5))
+	var survivors []uint64
+	somePq := false
+	for i := 0; i < nseg; i++ {
+		org := 0
+		if r.Intn(10) == 0 {
+			org = 1
+		}
+		expired := r.Intn(5) < 3
+		if emptying && i == 0 {
+			expired, org = true, 0
+		}
+		d := int64(1+r.Intn(5)) * []int64{1, 1000, 3600000}[r.Intn(3)]
+		if expired {
+			d = -d + 1
+		}
+		var pqs []int
+		if emptying {
+			if expired && org == 0 && (i == 0 || r.Intn(2) == 0) {
+				pqs = []int{1 + r.Intn(3)}
+				if r.Intn(3) == 0 {
+					pqs = append(pqs, 4)
+				}
+			}
+		} else {
+			pqs = retGenPqs(r)
+		}
+		if len(pqs) > 0 {
+			somePq = true
+		}
+		if !expired || org != 0 {
+			survivors = append(survivors, key)
+		}
+		segs = append(segs, retFmtSeg(key, 'l', uint64(h+d), uint64(r.Intn(1000)), org, pqs))
+		key += uint64(1 + r.Intn(3))
+	}
+	_ = somePq
+	nrec := 1 + r.Intn(3)
+	var recs []string
+	for i := 0; i < nrec; i++ {
+		p := 1 + r.Intn(5)
+		k := key + uint64(r.Intn(3)) // a segment rotated after the pass
+		if len(survivors) > 0 && r.Intn(2) == 0 {
+			k = survivors[r.Intn(len(survivors))]
+		}
+		recs = append(recs, fmt.Sprintf("%d/%d", p, k))
+	}
+	return fmt.Sprintf("ret rec %d %d %s %s", now, hours, strings.Join(segs, ";"), strings.Join(recs, ","))
+}
+
 func genRet(r *rand.Rand, n int, tier string) []string {
 	var out []string
 	// deliberate boundary cases first
@@ -1124,16 +1433,20 @@ func genRet(r *rand.Rand, n int, tier string) []string {
 		"ret vol 0 5 1:l:1000:10:0:-;2:l:2000:1:0:-",
 		"ret vol 0 5 1:l:1789000000000:5:0:-;2:m:1789990000:5:0:-;3:l:1789999999000:100:0:-",
 		"ret int 0 1790000000000 24 1:l:1789900000000:1:0:1;2:l:1789990000000:1:0:1",
+		"ret rec 1790000000000 24 1:l:1789900000000:1:0:1;2:l:1789990000000:1:0:- 1/2,2/3",
+		"ret rec 1790000000000 24 1:l:1789900000000:1:0:1;2:l:1789990000000:1:0:1 1/2,2/2",
 	)
 	for len(out) < n {
 		x := r.Intn(100)
 		switch {
-		case x < 42:
+		case x < 36:
 			out = append(out, genRetTime(r))
-		case x < 75:
+		case x < 64:
 			out = append(out, genRetVol(r))
-		case x < 94:
+		case x < 83:
 			out = append(out, genRetInt(r))
+		case x < 94:
+			out = append(out, genRetRec(r))
 		default:
 			bad := []string{
 				"ret", "ret time", "ret time 1790000000000 24", "ret time x 24 -", "ret time 1790000000000 24 1:l:5:1:0", "ret time 1790000000000 24 1:l:5:1:0:-;1:l:6:1:0:-",
@@ -1141,6 +1454,7 @@ func genRet(r *rand.Rand, n int, tier string) []string {
 				"ret vol 1 5 1:q:5:1:0:-", "ret vol 1 5", "ret vol -1 5 -", "ret int 1 1790000000000 24 1:m:5:1:0:-", "ret int a 1790000000000 24 -", "ret foo 1 2 3",
 				"ret time 1790000000000 24 1:l:18446744073709551616:1:0:-", "ret time 1790000000000 24 1:l:5:1:0:1+x", "ret time 9007199254740992 24 -", "ret time 1790000000000 24 -", "ret vol 3 5 -", "ret int 3 1790000000000 24 -",
 				"ret time 1790000000000 -9223372036854775808 -",
+				"ret rec 1790000000000 24 1:l:5:1:0:-", "ret rec 1790000000000 24 1:l:5:1:0:- 1/x", "ret rec 1790000000000 24 1:m:5:1:0:- 1/2", "ret rec 1790000000000 24 - 1000/1", "ret rec 1790000000000 24 - -",
 			}
 			out = append(out, bad[r.Intn(len(bad))])
 		}
